@@ -191,6 +191,15 @@ PROPS = {
         "partial": ["metadata level: injectivity of the layout/link serialisation is the C16 codec theorem (composed in Props/C16)"],
         "assumptions": COMMON_ASSUME,
     },
+    "C16": {
+        "claim": "Round trip of the hand-written codecs (artifact rules in every form, commands, byproducts with the flattened extra map) and faithfulness/injectivity of the rule reader are Lean theorems for all values; every metadata type obtainable from the builders (layouts, links, signed blocks, steps, inspections, keys of all types, signatures) is serialised in four ways (to_string, pretty, canonical, JsonPretty), parsed and compared (value and byte-identical re-serialisation) on the real code; the rule and byproducts readers are compared with the model on arbitrary and near-valid token arrays / objects.",
+        "level_note": "Trusted: Lean kernel; serde-derive semantics as encoded in Model/Wire.lean; the derived struct codecs, PublicKey and chrono are oracle-only. Two builder-obtainable boundary classes fail the full statement and are listed in known_findings.json.",
+        "technique": 'Lean 4 theorems about an executable model + model/implementation correspondence check (differential run with property oracle)',
+        "rule": "cases = generated values of every metadata type (all rule forms, optional prefixes, empty vs absent environment, extra byproducts, non-ASCII paths, 0-3 keys of all types, thresholds across u32) x four serialisations; ops = rule_dec / bp_dec on valid, mutated and random inputs; distinct = distinct op; non-trivial = arrays with at least two tokens / objects",
+        "trusted_base": ["serde-derive: missing/null Option = None, unknown members ignored, flatten collects the rest (Model/Wire.lean)", "derived codecs of Layout/Step/Inspection/Link/Signature/Metablock/PublicKey and chrono date handling: oracle only"],
+        "partial": ["theorems cover the hand-written codecs; the derived struct codecs are covered by the value-level oracle only", "known findings: reserved byproduct keys; expiry after year 9999"],
+        "assumptions": COMMON_ASSUME + ["expiry at whole seconds, as the statement prescribes"],
+    },
     "C17": {
         "claim": "The table of string requests made by the crate's hand-written decoders is regenerated from the source on every run; Lean proves that it contains no borrowed request and that a decoder making only owned requests is independent of channel and escape spelling; every document type is decoded on the real code through seven entry points and four spellings, which must agree.",
         "level_note": "Trusted: Lean kernel; the translator's regular expressions (fail closed: unclassifiable string-like requests are rejected by the theorem); serde / serde_json and the derived decoders are library code covered only by the oracle.",
